@@ -3,7 +3,7 @@ CONSTANTS
   Ident = "kitty"
   Style3 = "block"
   Bits = 3
-  Fams = {"Q", "S", "O", "L", "F", "T", "I"}
+  Fams = {"Q", "O", "L", "F", "T", "I"}
   WithBad = FALSE
   WithInv = FALSE
   Dyn = FALSE
